@@ -356,15 +356,16 @@ class _neg:
         return self.k == o.k
 
 
-def eliminate(hyps, goals, max_terms=60000):
+def eliminate(hyps, goals, max_terms=60000, nopivot=0):
     """Solve hypotheses for symbols and substitute.  A hypothesis  c*m*x + rest = 0  with x
     occurring exactly once (linearly), m a monomial of invertible symbols and x not in
     `rest`, is equivalent to  x = -rest/(c*m)  (m != 0): substituting it into everything else
     removes both the hypothesis and the symbol.  Entries of isometric factors (Q, U, V) are
     never solved for, so what remains are the orthonormality relations.  Preference: leaf /
     older symbols first.  Returns (remaining hyps, substituted goals, number eliminated)."""
-    hyps = [h for h in hyps if h.t]
+    nbase = len(hyps) - nopivot     # the last `nopivot` hypotheses are derived consequences
     goals = list(goals)
+    hyps = list(hyps)
     inv = P.TAB.invertible
     con = P.TAB.constrained
     nel = 0
@@ -373,7 +374,7 @@ def eliminate(hyps, goals, max_terms=60000):
     while progress:
         progress = False
         for hi, h in enumerate(hyps):
-            if hi in dead or not h.t:
+            if hi in dead or not h.t or hi >= nbase:
                 continue
             # candidate symbols: appear in exactly one term, with exponent 1, cofactor invertible
             occ = {}
@@ -430,7 +431,7 @@ class _TooBig(Exception):
     pass
 
 
-def q_cert(goals, hyps, stats, rounds=2, timeout_ms=120000, max_rows=120000):
+def q_cert(goals, hyps, stats, rounds=2, timeout_ms=120000, max_rows=120000, derived=()):
     """goals: list of Poly (to be shown == 0 modulo hyps).  Returns
     ('unsat'|'sat'|'unknown'|'vacuous', info).
 
@@ -447,7 +448,7 @@ def q_cert(goals, hyps, stats, rounds=2, timeout_ms=120000, max_rows=120000):
     t0 = time.time()
     info0 = {}
     try:
-        hyps, nz2, nel = eliminate(hyps, nz)
+        hyps, nz2, nel = eliminate(list(hyps) + list(derived), nz, nopivot=len(derived))
         info0 = {"eliminated": nel, "hyps_left": len(hyps)}
         goals = nz = [g for g in nz2]
         nz = [g for g in nz if g.t]
@@ -462,10 +463,9 @@ def q_cert(goals, hyps, stats, rounds=2, timeout_ms=120000, max_rows=120000):
     left = []
     for g in nz:
         nf, used = reduce_nf(g, rules)
+        rowkeys.update(used)
         if nf.t:
-            left.append(g)
-        else:
-            rowkeys.update(used)
+            left.append(nf)       # goal = (used multiples of hypotheses) + nf : continue with nf
     info = dict(info0, reduced_to_zero=len(nz) - len(left), not_reduced=len(left))
     atoms = _MonoAtoms()
     s = z3.SolverFor("QF_LRA")
